@@ -8,10 +8,25 @@ mod verif_search {
     use super::*;
     use std::{collections::BTreeMap, format, string::String, vec::Vec, println};
 
+    /// A panic inside the real code is a failure of the contract too: report it with the operation sequence.
+    fn guarded<F: FnOnce() -> Option<String>>(f: F) -> Option<String> {
+        match std::panic::catch_unwind(std::panic::AssertUnwindSafe(f)) {
+            Ok(r) => r,
+            Err(p) => {
+                let msg = p.downcast_ref::<&str>().map(|s| String::from(*s)).or_else(|| p.downcast_ref::<String>().cloned()).unwrap_or_default();
+                Some(format!("the real code panicked: {msg}"))
+            }
+        }
+    }
+
     const OFFS: [i64; 12] = [-70, -64, -63, -2, -1, 0, 1, 2, 63, 64, 65, 70];
 
     /// op = (index into OFFS relative to the current last tick, messages_count)
-    fn run(start: u32, ops: &[(usize, usize)]) -> Option<String> {
+    fn run(start: u32, ops: &[(usize, usize)]) -> Option<String> { run_with(start, ops, false) }
+
+    /// `ranges`: additionally compare `contains_any(a, b)` for every range around the window with the model
+    /// (exists t in [a, b]: received_all(t)); `contains_any` is out of reach of both verifiers.
+    fn run_with(start: u32, ops: &[(usize, usize)], ranges: bool) -> Option<String> {
         let mut real = ServerMutateTicks::default();
         real.last_tick = RepliconTick::new(start);
         let mut last: i64 = 0; // model ticks as offsets from `start`
@@ -44,6 +59,19 @@ mod verif_search {
                 let want = d <= 0 && (d <= -64 || seen.get(&(last + d)).is_some_and(|&(c0, r0)| c0 == r0));
                 if real.contains(p) != want { return Some(format!("step {step}: contains(last{d:+}) = {}, model {want}", !want)); }
             }
+            if ranges {
+                let model = |d: i64| d <= 0 && (d <= -64 || seen.get(&(last + d)).is_some_and(|&(c0, r0)| c0 == r0));
+                for a in -70..=3i64 {
+                    for b in a..=3i64 {
+                        let want = (a..=b).any(model);
+                        let ta = RepliconTick::new(start.wrapping_add((last + a) as u32));
+                        let tb = RepliconTick::new(start.wrapping_add((last + b) as u32));
+                        if real.contains_any(ta, tb) != want {
+                            return Some(format!("step {step}: contains_any(last{a:+}, last{b:+}) = {}, model {want}", !want));
+                        }
+                    }
+                }
+            }
         }
         None
     }
@@ -56,7 +84,7 @@ mod verif_search {
         if let Ok(fixed) = std::env::var("VERIF_OPS") {
             let ops: Vec<(usize, usize)> = fixed.split(',').filter(|t| !t.is_empty()).map(|t| { let (a, b) = t.split_once('x').unwrap(); (a.parse().unwrap(), b.parse().unwrap()) }).collect();
             let start: u32 = std::env::var("VERIF_POLICY").ok().and_then(|p| p.parse().ok()).unwrap_or(5);
-            if let Some(why) = run(start, &ops) {
+            if let Some(why) = guarded(|| run(start, &ops)) {
                 println!("VERIF-COUNTEREXAMPLE policy={start} ops={} :: {why}", show(&ops));
                 panic!("contract violated on the real code: {why}");
             }
@@ -69,7 +97,7 @@ mod verif_search {
             loop {
                 let seq: Vec<(usize, usize)> = idx.iter().map(|&k| (k / 2, 1 + k % 2)).collect();
                 for start in starts {
-                    if let Some(why) = run(start, &seq) {
+                    if let Some(why) = guarded(|| run(start, &seq)) {
                         println!("VERIF-COUNTEREXAMPLE policy={start} ops={} :: {why}", show(&seq));
                         panic!("contract violated on the real code: {why}");
                     }
@@ -79,5 +107,40 @@ mod verif_search {
                 if k == len { break; }
             }
         }
+    }
+
+    /// Bounded stand-in run on every check (unit u03n): `contains_any` against the plain-set model.
+    #[test]
+    fn verif_native_u03n() {
+        let starts = [5u32, u32::MAX - 30];
+        if let Ok(fixed) = std::env::var("VERIF_OPS") {
+            let ops: Vec<(usize, usize)> = fixed.split(',').filter(|t| !t.is_empty()).map(|t| { let (a, b) = t.split_once('x').unwrap(); (a.parse().unwrap(), b.parse().unwrap()) }).collect();
+            let start: u32 = std::env::var("VERIF_POLICY").ok().and_then(|p| p.parse().ok()).unwrap_or(5);
+            if let Some(why) = guarded(|| run_with(start, &ops, true)) {
+                println!("VERIF-COUNTEREXAMPLE policy={start} ops={} :: {why}", show(&ops));
+                panic!("contract violated on the real code: {why}");
+            }
+            return;
+        }
+        let depth: usize = std::env::var("VERIF_DEPTH").ok().and_then(|d| d.parse().ok()).unwrap_or(2);
+        let n = OFFS.len() * 2;
+        let mut explored = 0usize;
+        for len in 0..=depth {
+            let mut idx = std::vec![0usize; len];
+            loop {
+                let seq: Vec<(usize, usize)> = idx.iter().map(|&k| (k / 2, 1 + k % 2)).collect();
+                for start in starts {
+                    explored += 1;
+                    if let Some(why) = guarded(|| run_with(start, &seq, true)) {
+                        println!("VERIF-COUNTEREXAMPLE policy={start} ops={} :: {why}", show(&seq));
+                        panic!("contract violated on the real code: {why}");
+                    }
+                }
+                let mut k = 0;
+                while k < len { idx[k] += 1; if idx[k] < n { break; } idx[k] = 0; k += 1; }
+                if k == len { break; }
+            }
+        }
+        println!("VERIF-EXPLORED sequences={explored}");
     }
 }
